@@ -155,4 +155,31 @@ def monitor(ctx, extended=False):
             classes.add((F.Cvs_Erhg(*a, get_dict=True)['regime'], kind))
         except Exception as e:   # noqa
             ctx.violation(f'raised {type(e).__name__}: {e}', inp, key='raised')
+    # dense sweeps of the settling law: a branch switch inside it shows as a dip only between grain sizes a fraction of a percent apart
+    combos = [(1.0068e-6, 0.9982, 2.65), (1.0508e-6, 1.0248, 2.65), (1.3e-6, 1.0, 2.0), (0.85e-6, 1.02, 4.0)] + \
+             [(ctx.rng.uniform(0.8e-6, 1.4e-6), ctx.rng.uniform(0.99, 1.03), ctx.rng.uniform(2.0, 4.0)) for _ in range(ctx.n(2, 12))]
+    step = 1.0005 if not ctx.thorough else 1.0001
+    for nu, rhol, rhos in combos:
+        Rsd = (rhos - rhol) / rhol
+        d, prev = 5e-5, None
+        while d < 0.3:
+            ctx.count('evaluations')
+            vt = He.vt_ruby(d, Rsd, nu)
+            if prev is not None and not vt > prev[1]:
+                ctx.violation(f'settling velocity falls from {prev[1]!r} to {vt!r} when the grain size rises from {prev[0]!r} to {d!r}',
+                              {'d': [prev[0], d], 'Rsd': Rsd, 'nu': nu}, key='settling')
+                break
+            prev = (d, vt)
+            d *= step
+        for dfix in (6e-5, 1e-4, 3e-4, 2e-3):
+            r, prev = 0.9, None
+            while r < 3.1:
+                ctx.count('evaluations')
+                vt = He.vt_ruby(dfix, r, nu)
+                if prev is not None and not vt > prev[1]:
+                    ctx.violation(f'settling velocity falls from {prev[1]!r} to {vt!r} when the relative density rises from {prev[0]!r} to {r!r}',
+                                  {'d': dfix, 'Rsd': [prev[0], r], 'nu': nu}, key='settling')
+                    break
+                prev = (r, vt)
+                r *= step
     ctx.stats['distinct_nontrivial'] = len(classes)
